@@ -110,7 +110,7 @@ theorem evaluateRoute_dec (e r) : Rel decStep (evaluateRoute e r) := by
   dec_walk []
 
 theorem stageNext_dec (k idx e o acc) : Rel decStep (stageNext k idx e o acc) := by
-  unfold stageNext
+  unfold stageNext stageTarget
   dec_walk [evaluateRoute_dec _ _]
 
 theorem makeTaskContext_dec (k idx r) : Rel decStep (makeTaskContext k idx r) := by
@@ -157,7 +157,7 @@ theorem addTaskState_dec (k a b) : Rel decStep (addTaskState E k a b) := by
     rw [WState.setTask_sequence])
 
 theorem ensureRecord_dec (k s r ev) : Rel decStep (ensureRecord E k s r ev) := by
-  unfold ensureRecord
+  unfold ensureRecord firstRecord recordFromStaged
   dec_walk [addTaskState_dec E _ _ _]
 
 theorem requestTaskRerun_dec (k r) : Rel decStep (requestTaskRerun E k r) := by
